@@ -76,7 +76,8 @@ def evaluate(ctx, boxes, cfgs, big=()):
     # order is not part of the property: never let it fail the check
     corr.obl["nd_map_seq"]["disagreements_info"] = corr.obl["nd_map_seq"]["disagreements"]
     corr.obl["nd_map_seq"]["disagreements"] = 0
-    corr.violations.sort(key=lambda v: (not v["oracle_fails"], len(v["case"]["sz"]), L.prod([s + 1 for s in v["case"]["sz"]])))
+    szof = lambda v: v["case"].get("sz") or v["case"].get("big") or []
+    corr.violations.sort(key=lambda v: (not v["oracle_fails"], len(szof(v)), L.prod([s + 1 for s in szof(v)])))
     return corr
 
 
